@@ -5,6 +5,7 @@
 -/
 import Driver.Codec
 import Driver.Ops
+import Driver.ApiOps
 
 open Lean DictIO DictIO.Codec
 
@@ -14,7 +15,7 @@ partial def loop (h : IO.FS.Stream) (out : IO.FS.Stream) : IO Unit := do
   let reply : Json :=
     match Json.parse line with
     | .error e => Json.mkObj [("error", Json.str s!"json: {e}")]
-    | .ok j => match DictIO.Ops.handle j with
+    | .ok j => match (match j.getObjVal? "op" with | .ok (Json.str "api_run") => DictIO.ApiOps.handle j | _ => DictIO.Ops.handle j) with
       | .ok r => r
       | .error e => Json.mkObj [("error", Json.str e)]
   out.putStrLn reply.compress
